@@ -139,7 +139,7 @@ theorem roundDown_eq (s : Style) {tr : K → Int} (htr : IsTrunc tr) (x e : K) (
     push_cast; rw [add_sub_cancel_right]
   · simp only [hg, if_false] at hlo ⊢
     simp only [hlo]
-    push_cast; rw [add_sub_cancel_right]
+    push_cast; rfl
 
 theorem roundUp_eq (s : Style) {tr : K → Int} (htr : IsTrunc tr) (x e : K) (l : Int)
     (hl : (l : K) < x) (hu : x < (l : K) + 1) (hne : eqS s ((tr x : Int) : K) x e = false) :
@@ -156,7 +156,7 @@ theorem roundUp_eq (s : Style) {tr : K → Int} (htr : IsTrunc tr) (x e : K) (l 
     push_cast; rw [add_sub_cancel_right]
   · simp only [hg, if_false] at hlo ⊢
     simp only [hlo]
-    push_cast; rw [add_sub_cancel_right]
+    push_cast; rfl
 
 theorem roundDown_of_eq (s : Style) (tr : K → Int) (x e : K) (h : eqS s ((tr x : Int) : K) x e = true) :
     roundDown s tr x e = tr x := by
